@@ -29,7 +29,7 @@ Qed.
 (* hence completeness without the `known_classb cfg = false` hypothesis is refuted *)
 Theorem C17_complete_unguarded_refuted :
   ~ (forall cfg p name v, wf_cfgb cfg = true -> wf_pathb p = true -> receives cfg p name v ->
-       exists v', In (name, Scalar v') (capture_for_into (cfg_new cfg) p)).
+       exists v', In (name, EYaml (Scalar v')) (capture_for_into (cfg_new cfg) p)).
 Proof.
   intros H. destruct C17_known_class_witness as [W [_ [P [R E]]]].
   destruct (H known_cfg [k_a; z] x 2 W P R) as [v' Hin]. rewrite E in Hin. exact Hin.
@@ -44,29 +44,29 @@ Proof. reflexivity. Qed.
    matching modules a property with the empty name ... *)
 Theorem C17_trailing_wildcard_witness :
   wf_cfgb [(k_a_any, 5)] = false /\
-  capture_for_into (cfg_new [(k_a_any, 5)]) [k_a; z] = [([], Scalar 5)] /\
+  capture_for_into (cfg_new [(k_a_any, 5)]) [k_a; z] = [([], EYaml (Scalar 5))] /\
   spec_capture [(k_a_any, 5)] [k_a; z] = [].
 Proof. repeat split; reflexivity. Qed.
 
 (* ... a wildcard inside a segment is read as a segment of its own (module a.q.b gets c from `a<any>b.c`) ... *)
 Theorem C17_wildcard_inside_segment_witness :
   wf_cfgb [(k_aanyb_c, 3)] = false /\
-  capture_for_into (cfg_new [(k_aanyb_c, 3)]) [k_a; z; [98]] = [([99], Scalar 3)] /\
+  capture_for_into (cfg_new [(k_aanyb_c, 3)]) [k_a; z; [98]] = [([99], EYaml (Scalar 3))] /\
   spec_capture [(k_aanyb_c, 3)] [k_a; z; [98]] = [].
 Proof. repeat split; reflexivity. Qed.
 
 (* ... and an empty segment next to a wildcard is dropped (`<any>..x` gives module z the property x, not .x) *)
 Theorem C17_empty_segment_witness :
   wf_cfgb [(k_any_e_x, 3)] = false /\
-  capture_for_into (cfg_new [(k_any_e_x, 3)]) [z] = [(x, Scalar 3)] /\
+  capture_for_into (cfg_new [(k_any_e_x, 3)]) [z] = [(x, EYaml (Scalar 3))] /\
   spec_capture [(k_any_e_x, 3)] [z] = [([46; 120], 3)].
 Proof. repeat split; reflexivity. Qed.
 
 (* soundness without the key guard is refuted by the first of these *)
 Theorem C17_sound_unguarded_refuted :
-  ~ (forall cfg p name val, known_classb cfg = false -> wf_pathb p = true ->
-       In (name, val) (capture_for_into (cfg_new cfg) p) -> exists v, val = Scalar v /\ receives cfg p name v).
+  ~ (forall cfg p name e, known_classb cfg = false -> wf_pathb p = true ->
+       In (name, e) (capture_for_into (cfg_new cfg) p) -> exists v, e = EYaml (Scalar v) /\ receives cfg p name v).
 Proof.
-  intros H. destruct (H [(k_a_any, 5)] [k_a; z] [] (Scalar 5) eq_refl eq_refl (or_introl eq_refl)) as [v [_ R]].
+  intros H. destruct (H [(k_a_any, 5)] [k_a; z] [] (EYaml (Scalar 5)) eq_refl eq_refl (or_introl eq_refl)) as [v [_ R]].
   apply spec_capture_ok in R. exact R.
 Qed.
